@@ -5,6 +5,7 @@
 (*   - the remote's script (valid, out of order, duplicated, unknown,      *)
 (*     malformed, wrong-magic messages, self / obsolete / newer versions), *)
 (*   - the direction and the locally configured protocol version,          *)
+(*   - the chain parameters and whether the remote is at 127.0.0.1,        *)
 (*   - which senders queue which messages, the inventory,                  *)
 (*   - steering of the real run (when senders start, where the disconnect  *)
 (*     request falls, held writes, a reader held after a read).            *)
@@ -45,11 +46,15 @@ Plans == << [s1 |-> <<1, 2>>, s2 |-> <<3>>],
             [s1 |-> <<>>, s2 |-> <<>>] >>
 InvPlans == << <<>>, <<>>, <<"tx">>, <<"block">>, <<"block", "tx">>, <<"tx", "tx">> >>
 
+\* chain parameters ("nil": none given, the peer defaults to testnet3) and whether
+\* the remote's address is 127.0.0.1
+Nets     == <<"sim", "sim", "main", "test3", "nil", "regtest", "regtest">>
+
 Ats      == {"start", "hs", "late"}
 DiscAts  == <<"none", "none", "start", "hs", "hs", "mid", "mid", "late", "late">>
 
 NoScn   == [dir |-> "", lpv |-> 0, script |-> <<>>, rclose |-> FALSE,
-            plan |-> [s1 |-> <<>>, s2 |-> <<>>], invs |-> <<>>, disc |-> FALSE]
+            plan |-> [s1 |-> <<>>, s2 |-> <<>>], invs |-> <<>>, disc |-> FALSE, net |-> "", loop |-> FALSE]
 NoSteer == [feed |-> "", sendAt |-> [s1 |-> "", s2 |-> ""], invAt |-> "", discAt |-> "",
             hold |-> FALSE, stallRead |-> 0]
 
@@ -85,7 +90,13 @@ ChooseConn ==
   /\ stage = "tail" /\ tailLeft = 0
   /\ \E d \in {"in", "out"}, li \in 1..Len(LPVs), rc \in BOOLEAN, pi \in 1..Len(Plans), ii \in 1..Len(InvPlans) :
         scn' = [dir |-> d, lpv |-> LPVs[li], script |-> script, rclose |-> rc,
-                plan |-> Plans[pi], invs |-> InvPlans[ii], disc |-> FALSE]
+                plan |-> Plans[pi], invs |-> InvPlans[ii], disc |-> FALSE, net |-> "", loop |-> FALSE]
+  /\ stage' = "net"
+  /\ UNCHANGED <<script, good, tailLeft, steer>>
+
+ChooseNet ==
+  /\ stage = "net"
+  /\ \E ni \in 1..Len(Nets), l \in BOOLEAN : scn' = [scn EXCEPT !.net = Nets[ni], !.loop = l]
   /\ stage' = "steer1"
   /\ UNCHANGED <<script, good, tailLeft, steer>>
 
@@ -115,9 +126,22 @@ ChooseStarts ==
 
 HS(pv) == <<Ver(pv), M("verack")>>
 Scn(d, lpv, scr, rc, p1, p2, iv) ==
-  [dir |-> d, lpv |-> lpv, script |-> scr, rclose |-> rc, plan |-> [s1 |-> p1, s2 |-> p2], invs |-> iv, disc |-> FALSE]
+  [dir |-> d, lpv |-> lpv, script |-> scr, rclose |-> rc, plan |-> [s1 |-> p1, s2 |-> p2], invs |-> iv, disc |-> FALSE,
+   net |-> "sim", loop |-> FALSE]
 St(f, a1, a2, ai, da, h, sr) ==
   [feed |-> f, sendAt |-> [s1 |-> a1, s2 |-> a2], invAt |-> ai, discAt |-> da, hold |-> h, stallRead |-> sr]
+
+OnNet(c, n, l) == <<[c[1] EXCEPT !.net = n, !.loop = l], c[2]>>
+\* wrong-network (or malformed) message after a completed handshake, then a valid
+\* probe ping: refused everywhere except on regtest from localhost
+Probe(d, k) == <<Scn(d, 70016, HS(70016) \o <<M(k), M("ping")>>, FALSE, <<1>>, <<>>, <<>>), St("lockstep", "hs", "hs", "hs", "none", FALSE, 0)>>
+NetCore == << OnNet(Probe("in", "wrongmagic"), "main", TRUE),     OnNet(Probe("out", "wrongmagic"), "main", FALSE),
+              OnNet(Probe("in", "wrongmagic"), "test3", TRUE),    OnNet(Probe("out", "wrongmagic"), "test3", FALSE),
+              OnNet(Probe("out", "wrongmagic"), "nil", TRUE),     OnNet(Probe("in", "wrongmagic"), "nil", FALSE),
+              OnNet(Probe("in", "wrongmagic"), "sim", TRUE),      OnNet(Probe("out", "wrongmagic"), "sim", FALSE),
+              OnNet(Probe("in", "wrongmagic"), "regtest", TRUE),  OnNet(Probe("out", "wrongmagic"), "regtest", TRUE),
+              OnNet(Probe("in", "wrongmagic"), "regtest", FALSE), OnNet(Probe("out", "wrongmagic"), "regtest", FALSE),
+              OnNet(Probe("in", "malformed"), "regtest", TRUE),   OnNet(Probe("in", "malformed"), "test3", TRUE) >>
 
 Core == <<
   \* queued during the negotiation, negotiation refused (verack first)
@@ -165,11 +189,11 @@ Core == <<
 
 PickCore ==
   /\ stage = "core"
-  /\ \E c \in 1..Len(Core) : scn' = Core[c][1] /\ steer' = Core[c][2]
+  /\ \E c \in 1..Len(Core \o NetCore) : scn' = (Core \o NetCore)[c][1] /\ steer' = (Core \o NetCore)[c][2]
   /\ stage' = "done"
   /\ UNCHANGED <<script, good, tailLeft>>
 
-Next == StartGood \/ StartAny \/ AddMsg \/ ChooseConn \/ ChooseDisc \/ ChooseStarts \/ PickCore
+Next == StartGood \/ StartAny \/ AddMsg \/ ChooseConn \/ ChooseNet \/ ChooseDisc \/ ChooseStarts \/ PickCore
 
 Spec == Init /\ [][Next]_vars
 =============================================================================
